@@ -23,6 +23,7 @@ class Unknown(Exception):
 
 
 TYPE_PARAMS = ("a1", "a2", "a3", "a4")
+NUM_PARAMS = ("bond_order",)
 
 
 def _mentions(t, pred):
@@ -119,16 +120,20 @@ class Table:
 
     # -- feature discovery -----------------------------------------------------------------------
     def _is_feature(self, f):
+        if isinstance(f, tuple) and len(f) == 2 and f[0] == "param" and f[1] in NUM_PARAMS:
+            return True      # a numeric argument tested against literals (`bond_order > 1`, `bond_order is None`)
         return (not self.is_closed(f)) and len(_params_in(f) & set(TYPE_PARAMS)) == 1 and not (_params_in(f) - set(TYPE_PARAMS))
 
     def _note(self, f, other):
         if not self._is_feature(f):
             return
-        s = self.features.setdefault(f, set())
         try:
             v = self.const_of(other)
         except Unknown:
+            if not (isinstance(f, tuple) and f and f[0] in _CMP_OPS + ("not", "and", "or")):
+                self.features.setdefault(f, set())
             return
+        s = self.features.setdefault(f, set())
         if isinstance(v, (frozenset, tuple)):
             s.add(frozenset(v))
         else:
@@ -155,7 +160,9 @@ class Table:
                             feats.append(el)
                 else:
                     self._note(x, y)
-                    if self._is_feature(x):
+                    # x is a feature OF THIS comparison only when it is compared with something closed (a literal / a table); two open sides (`p != q` of two
+                    # boolean tests) are not a feature-against-literal comparison: their own comparisons are scanned instead
+                    if self._is_feature(x) and (self.is_closed(y) or not (isinstance(x, tuple) and x and x[0] in _CMP_OPS + ("not", "and", "or"))):
                         feats.append(x)
             # features are maximal: comparisons nested inside a feature are part of its definition, not of the table
             for x in (a, b):
@@ -423,7 +430,10 @@ def D5_torsion_table(repo, clause):
     doms = tab.domains()
     # roles: which feature is the hybridisation / element of which position
     roles = {}
-    for f, reps in doms.items():
+    for f, reps in list(doms.items()):
+        if not (_params_in(f) & set(TYPE_PARAMS)):
+            del doms[f]        # a numeric argument (bond order): not part of the torsion case table, left symbolic
+            continue
         pos = TYPE_PARAMS.index(next(iter(_params_in(f) & set(TYPE_PARAMS))))
         lits = set().union(*tab.features[f]) if tab.features[f] else set()
         kind = "el" if lits & CHALCOGENS else ("h" if lits & {"1", "2", "3", "R"} else None)
@@ -813,6 +823,100 @@ def _decidable(tab, cond, env):
         return False
 
 
+def _fold_numeric(node):
+    """value of a constant arithmetic expression (numbers, + - * / **, unary minus), else None"""
+    try:
+        if isinstance(node, ast.Constant) and isinstance(node.value, (int, float)) and not isinstance(node.value, bool):
+            return float(node.value)
+        if isinstance(node, ast.UnaryOp) and isinstance(node.op, (ast.USub, ast.UAdd)):
+            v = _fold_numeric(node.operand)
+            return None if v is None else (-v if isinstance(node.op, ast.USub) else v)
+        if isinstance(node, ast.BinOp) and isinstance(node.op, (ast.Add, ast.Sub, ast.Mult, ast.Div, ast.Pow)):
+            a, b = _fold_numeric(node.left), _fold_numeric(node.right)
+            if a is None or b is None:
+                return None
+            return {ast.Add: a + b, ast.Sub: a - b, ast.Mult: a * b, ast.Div: a / b, ast.Pow: a ** b}[type(node.op)]
+    except Exception:
+        return None
+    return None
+
+
+def num_eval(tab, t, env, seed):
+    """Numeric value of an arithmetic term with every non-arithmetic sub-term (table entries, calls of other parameter functions, opaque conditionals) replaced by a
+    pseudo-random positive number that depends only on the sub-term's canonical text and the seed.  Two terms that denote the same function of their atoms get the
+    same value for every seed; terms that get different values for some seed denote different functions (identity testing by random evaluation - nothing of the
+    package is executed).  Raises Unknown when a sub-term cannot be canonicalised."""
+    import hashlib
+    import math as _m
+
+    def atom(x):
+        key = canon_expr(tab, x, env)
+        h = hashlib.sha256(("%d|%s" % (seed, key)).encode()).digest()
+        return 0.5 + 1.5 * (int.from_bytes(h[:6], "big") / float(1 << 48))
+
+    def ev(x):
+        if not isinstance(x, tuple):
+            raise Unknown(repr(x))
+        if x in env:
+            v = env[x]
+            if isinstance(v, (int, float)) and not isinstance(v, bool):
+                return float(v)
+            return atom(x)
+        op = x[0]
+        if op == "const":
+            if isinstance(x[1], (int, float)) and not isinstance(x[1], bool):
+                return float(x[1])
+            return atom(x)
+        if op == "free" and x[1] == "pi":
+            return _m.pi
+        if op == "free":
+            # a module-level name: a numeric constant expression is folded, a literal table is an atom, anything else is unknown
+            try:
+                m_, v_ = tab.repo.table(x[1])
+            except Exception:
+                raise Unknown("free name %s" % x[1])
+            cv = _fold_numeric(v_)
+            if cv is not None:
+                return cv
+            if isinstance(v_, (ast.Dict, ast.List, ast.Tuple)):
+                return atom(x)
+            raise Unknown("module-level name %s is neither a number nor a literal table" % x[1])
+        if op == "attr" and len(x) == 3 and x[2] == "pi":
+            return _m.pi
+        if op in ("add", "mul"):
+            vals = [ev(y) for y in x[1:]]
+            out = 0.0 if op == "add" else 1.0
+            for v in vals:
+                out = out + v if op == "add" else out * v
+            return out
+        if op == "sub":
+            return ev(x[1]) - ev(x[2])
+        if op == "neg":
+            return -ev(x[1])
+        if op == "div":
+            return ev(x[1]) / ev(x[2])
+        if op == "pow":
+            return ev(x[1]) ** ev(x[2])
+        if op in ("call", "mcall"):
+            name = x[1] if op == "call" else x[2]
+            args = x[2][1:] if op == "call" else x[3][1:]
+            kws = (x[3] if op == "call" else x[4])
+            if name in ("sqrt", "log", "cos", "sin", "exp", "abs", "fabs") and len(args) == 1 and kws == ("kws",) and (op == "call" or (isinstance(x[1], tuple) and x[1][0] == "free")):
+                v = ev(args[0])
+                return {"sqrt": _m.sqrt, "log": _m.log, "cos": _m.cos, "sin": _m.sin, "exp": _m.exp, "abs": abs, "fabs": abs}[name](v)
+            return atom(x)
+        if op in ("phi", "ifexp") and len(x) == 4:
+            if _canon(x).startswith("BO("):
+                return atom(x)          # the bond-order conditional (given order or guessed one) is an atom of the formulas on both sides
+            c = tab.ev(x[1], env)       # an undecidable conditional makes the comparison undecided (Unknown propagates)
+            return ev(x[2] if c else x[3])
+        return atom(x)
+    try:
+        return ev(t)
+    except (ValueError, ZeroDivisionError, OverflowError):
+        raise Unknown("numeric evaluation left the domain")
+
+
 def _mentions_table_literal(t):
     if isinstance(t, tuple):
         if t and t[0] == "dict":
@@ -968,6 +1072,11 @@ def _numeric_features(tab):
         if t and t[0] in _CMP_OPS and len(t) == 3:
             feats = []
             for a, b in ((t[1], t[2]), (t[2], t[1])):
+                if t[0] in ("gt", "ge", "lt", "le") and isinstance(b, tuple) and b and b[0] == "const" and isinstance(b[1], (int, float)) and not isinstance(b[1], bool) \
+                        and not tab._is_feature(a):
+                    # a numeric argument compared through a conditional re-binding (`bond_order = guess if None else bond_order; bond_order > 1`)
+                    for pn in _params_in(a) & set(NUM_PARAMS):
+                        extra.setdefault(("param", pn), set()).update({b[1] - 0.5, b[1], b[1] + 0.5})
                 if tab._is_feature(a):
                     feats.append(a)
                     if t[0] in ("gt", "ge", "lt", "le") and isinstance(b, tuple) and b[0] == "const" and isinstance(b[1], (int, float)) and not isinstance(b[1], bool):
@@ -1072,11 +1181,20 @@ def D8_formula_reference(repo, clause, funcs=("pair_coeffs", "bond_params", "ang
                     undecidable = str(e)
                     break
                 if cx != cy:
+                    # the normal forms differ in spelling: identity testing by random evaluation of the two terms over their atoms decides whether they are the same function
+                    try:
+                        vals = [(num_eval(tc, x, env, sd), num_eval(tr, y, env, sd)) for sd in (1, 2, 3, 4, 5)]
+                        same_fn = all(abs(a_ - b_) <= 1e-9 * max(1.0, abs(a_), abs(b_)) for a_, b_ in vals)
+                        decided = True
+                    except Unknown:
+                        same_fn, decided = False, False
+                    if decided and same_fn:
+                        continue
                     # positive when the two normal forms have the same shape and differ only in numbers (a coefficient, an exponent, a sign,
-                    # a table column, a returned constant): normal forms are constant-folded and like terms are merged, so that is a different function
+                    # a table column, a returned constant), or when the random evaluation separates them
                     import re as _re
                     shape = lambda z: _re.sub(r"-?\d+(\.\d+)?(e-?\d+)?", "#", z)
-                    pos = shape(cx) == shape(cy)
+                    pos = shape(cx) == shape(cy) or decided
                     mism.append((env, "element %d" % j, cx, cy, pos))
             if undecidable:
                 break
